@@ -62,6 +62,14 @@ def drive(s, peers, plan, run, mode, nsteps, snaps=None):
         s.Solve(cost, callback=cb)
     elif mode == 'solve_step':
         s.Solve(cost, callback=cb, step=True)
+    elif mode == 'while':
+        # the documented idiom: the status is queried BEFORE anything has run, and before every further step
+        first = True; n = 0
+        while not s.Terminated() and n < nsteps:
+            s.Step(cost if first else None, callback=cb)
+            first = False; n += 1
+            if snaps is not None:
+                snaps.append(ens_snap(s)); snaps[-1]['_nevals'] = len(run.evals)
     else:
         first = True
         for i in range(nsteps):
@@ -111,6 +119,15 @@ def gen_ensemble_plan(rng, seed, tier, prop):
             t = gen.gen_simple_term(rng, plan['nested'])
         if t: plan['termination'] = t
     plan['limits'] = [rng.choice([0, 1, 2, 3, 5, 8, 12, 20, 30, 45]), rng.choice([None, None, 1, 40, 100, 400])]
+    if rng.random() < 0.12 and plan['nested'] != 'DE':
+        # no limits set on the ensemble at all: the members run under their own defaults until a termination they can reach
+        plan['limits'] = [None, None]
+        plan['cost'] = gen.gen_cost(rng, dim, ['quad', 'quad', 'rosen', 'abs'])
+        if plan['nested'] == 'NM':
+            plan['termination'] = {'t': 'CRT', 'kw': {'xtol': rng.choice([1e-4, 1e-3]), 'ftol': rng.choice([1e-4, 1e-3])}}
+        else:
+            plan['termination'] = {'t': 'NCOG', 'kw': {'tolerance': 1e-4, 'generations': 2}}
+        plan['constraint'] = None
     plan['evalmon'] = rng.random() < 0.4
     plan['nsteps'] = rng.randint(2, 10)
     return plan
